@@ -41,7 +41,8 @@ AllProd == [
   NameValueOpt    |-> <<S(E), S(<<"NameValue">>)>>,
   \* Value in name mode: no "{...}" suffix (it would be the body), cannot start with "{"
   NameValue       |-> <<S(<<"NameInner", "NamePasteTail">>)>>,
-  NamePasteTail   |-> <<S(E), S(<<"#", "NameInner", "NamePasteTail">>)>>,
+  \* after "#" the documents do not say whether "{" starts a bits value or the body; the liberal reading admits the value
+  NamePasteTail   |-> <<S(E), S(<<"#", "NameInner", "NamePasteTail">>), L(<<"#", "InnerValue", "NamePasteTail">>)>>,
   NameInner       |-> <<S(<<"NameSimple", "NameSuffixes">>)>>,
   NameSimple      |-> <<S(<<"Integer">>), S(<<"String">>), S(<<"Code">>), S(<<"Boolean">>), S(<<"Uninitialized">>), S(<<"List">>),
                        S(<<"Dag">>), S(<<"Identifier">>), S(<<"ClassValue">>), S(<<"BangOperator">>), S(<<"CondOperator">>)>>,
